@@ -24,7 +24,8 @@ pub fn gen(o: &Opts, sink: &mut dyn FnMut(Vec<i64>, String)) {
         k += 1; if !mine(o, k) { continue; }
         let mut rng = Rng::new(o.seed, 20_000_000 + j);
         // NAME fields: boundaries and random; vehicle_system differs from its instance in most cases
-        let f = |rng: &mut Rng, max: i64| -> i64 { match rng.below(4) { 0 => 0, 1 => max, _ => rng.range(0, max) } };
+        // one value in five lies beyond the width of its NAME field (the configuration types are u16 / u8): only the field's bits reach the wire
+        let f = |rng: &mut Rng, max: i64| -> i64 { let tmax = if max > 255 { 65535 } else { 255 }; match rng.below(5) { 0 => 0, 1 => max, 2 if max < tmax => { let r = rng.range(max + 1, tmax); *rng.pick(&[max + 1, tmax, r]) } _ => rng.range(0, max) } };
         let addr = if j < 256 { j as i64 } else { rng.below(256) as i64 };
         let mut c = vec![addr, f(&mut rng, 2047), f(&mut rng, 31), f(&mut rng, 7), f(&mut rng, 255), f(&mut rng, 127), f(&mut rng, 15), f(&mut rng, 7)];
         // driver list from known and unknown pairs, with and without sa / timeout
